@@ -97,6 +97,12 @@ theorem goInChroot_unshares_fs_and_mounts :
     ∃ fl fs ns, Facts.goInChrootFlags? = some fl ∧ Facts.clonefs? = some fs ∧ Facts.clonenewns? = some ns ∧
       fl &&& fs = fs ∧ fl &&& ns = ns ∧ fs ≠ 0 ∧ ns ≠ 0 := ⟨_, _, _, rfl, rfl, rfl, by decide, by decide, by decide, by decide⟩
 
+/-- the jail is a property of one OS thread: nothing that runs inside it (`Unpack`, `UnpackLayer`,
+    `Tarballer.Do` and every function of the package they reach) starts a goroutine, which would run on a
+    thread that still has the host's root -/
+theorem jail_body_single_threaded :
+    Facts.jailBodyRootsFound = true ∧ Facts.jailBodyGoStmts = [] := by decide
+
 /-- non-vacuity: a world where `/w/root` exists and resolves -/
 example : ∃ w : World, NextFresh w.fs ∧ resolve w b!"/w" true = .ok [b!"w"] := by
   refine ⟨{ fs := FS.empty.create [b!"w"] { kind := .dir, perm := 0o755, uid := 0, gid := 0, mtime := some 0 } }, ?_, ?_⟩
